@@ -52,6 +52,8 @@ StormFails(t) ==
   \cup If(t.unclosed = 0, "C10:channel-not-closed-after-cancel")
   \cup If(t.writerStall = 0, "C10:writers-stalled-after-everything-was-cancelled")
   \cup If(t.pullIdOpen = 0, "C10:single-item-subscription-survives-removal")
+  \* ... and having ended it holds nobody up (its context need not be cancelled for that)
+  \cup If(t.pullIdStall = 0, "C10:writers-stalled-behind-ended-single-item-subscription")
   \cup If(t.leaked = 0, "C10:goroutine-left-behind")
   \* LiveGetsAll on real subscriptions: a subscriber that registered (while others were cancelling and writers
   \* writing) and never cancelled received the write made after all of that
